@@ -307,6 +307,69 @@ def check_variants(ctx) -> None:
             ctx.bad("C11.variants", fn, fn.node, f"{name} does not build the model through model_from_dict on every path")
 
 
+def check_objective(ctx) -> None:
+    """model_from_dict: the objective is rebuilt from every reaction whose stored coefficient is non-zero - of either
+    sign (finite domain over the sign of the coefficient) - and with that coefficient."""
+    from ..absint import Evaluator, Unknown, EvalRaise
+
+    fn = ctx.prog.func("cobra.io.dict", "model_from_dict")
+    comps = [n for n in walk_local(fn.node) if isinstance(n, (ast.ListComp, ast.DictComp, ast.GeneratorExp)) and "objective_coefficient" in norm(n) and n.generators and n.generators[0].ifs]
+    if not comps:
+        raise AnalysisError("model_from_dict: the selection of objective reactions was not found")
+    for comp in comps:
+        gen = comp.generators[0]
+        var = gen.target.id if isinstance(gen.target, ast.Name) else None
+        wrong = []
+        for label, rxn, want in (("positive", {"id": "R", "objective_coefficient": 1.0}, True), ("negative", {"id": "R", "objective_coefficient": -0.05}, True),
+                                 ("zero", {"id": "R", "objective_coefficient": 0}, False), ("absent", {"id": "R"}, False)):
+            def on_call(ev, c):
+                f = c.func
+                if isinstance(f, ast.Attribute) and f.attr == "get":
+                    recv = ev.eval(f.value)
+                    if isinstance(recv, dict):
+                        return recv.get(*[ev.eval(a) for a in c.args])
+                return NotImplemented
+            try:
+                got = all(Evaluator({var: rxn}, on_call=on_call).truth(t) for t in gen.ifs)
+            except (Unknown, EvalRaise) as exc:
+                raise AnalysisError(f"model_from_dict: the objective filter cannot be evaluated: {exc}")
+            if got != want:
+                wrong.append(f"a reaction with a {label} objective coefficient is {'kept' if got else 'dropped'}")
+        if wrong:
+            ctx.bad("C11.keys", fn, enclosing_stmt(comp), "; ".join(wrong) + ": the loaded objective differs from the saved one")
+        else:
+            ctx.ok("C11.keys", fn, enclosing_stmt(comp), "objective reactions = stored coefficient non-zero (positive and negative), zero/absent skipped")
+    vals = [n for n in walk_local(fn.node) if isinstance(n, ast.DictComp) and "objective_coefficient" in norm(n.value)]
+    if vals and norm(vals[0].value).replace('"', "'") in ("rxn['objective_coefficient']",):
+        ctx.ok("C11.keys", fn, enclosing_stmt(vals[0]), "the stored coefficient itself is used", nontrivial=False)
+    elif vals:
+        ctx.bad("C11.keys", fn, enclosing_stmt(vals[0]), f"the objective coefficient is loaded as `{norm(vals[0].value)}`, not as the stored value")
+
+
+def check_stateless_yaml(ctx) -> None:
+    """The YAML string writer keeps nothing between calls: the buffer it returns the text from is created in the call."""
+    fn = ctx.prog.func("cobra.io.yaml", "CobraYAML.dump")
+    rets = [n for n in walk_local(fn.node) if isinstance(n, ast.Return) and n.value is not None and "getvalue" in norm(n.value)]
+    if not rets:
+        raise AnalysisError("CobraYAML.dump: the return of the buffer's text was not found")
+    for r in rets:
+        recv = r.value.func.value if isinstance(r.value, ast.Call) and isinstance(r.value.func, ast.Attribute) else None
+        fresh = False
+        if isinstance(recv, ast.Name):
+            defs = [n for n in walk_local(fn.node) if isinstance(n, ast.Assign) and any(isinstance(t, ast.Name) and t.id == recv.id for t in n.targets)]
+            fresh = bool(defs) and all(isinstance(d.value, ast.Call) and norm(d.value.func).split(".")[-1] == "StringIO" and not d.value.args for d in defs)
+        if fresh:
+            ctx.ok("C11.variants", fn, r, "the text is returned from a buffer created in this call")
+        else:
+            ctx.bad("C11.variants", fn, r, f"the text is returned from `{norm(recv)}`, which is not a buffer created in this call: the module-level serialiser is shared by all to_yaml calls, so the remains of an earlier, longer document end up in the string and it cannot be loaded")
+    cls = ctx.prog.cls("CobraYAML")
+    for name, ms in cls.methods.items():
+        for m in ms:
+            for n in walk_local(m.node):
+                if isinstance(n, ast.Assign) and any(isinstance(t, ast.Attribute) and isinstance(t.value, ast.Name) and t.value.id == (m.self_name or "self") for t in n.targets) and isinstance(n.value, ast.Call) and "StringIO" in norm(n.value.func):
+                    ctx.bad("C11.variants", m, n, "the serialiser object keeps an output buffer between calls")
+
+
 def run(ctx) -> None:
     ctx.rule("C11.keys", "T7: writer/reader key tables agree and cover the attributes the property lists", floor=15)
     ctx.rule("C11.direction", "T7: objective direction is serialised", floor=1)
@@ -317,6 +380,8 @@ def run(ctx) -> None:
     ctx.rule("C12.state", "T7: pickle blank/restore pairing (shared with C12)", floor=7)
     ctx.rule("C02.owner", "T1: loaded objects belong to the model (shared with C02)", floor=9)
     check_keys(ctx)
+    ctx.guard(check_objective, ctx)
+    ctx.guard(check_stateless_yaml, ctx)
     check_bounds(ctx)
     check_defaults(ctx)
     check_fixtype(ctx)
